@@ -164,7 +164,8 @@ def weights_arg(case):
         a[~w[2]] = np.nan
         return a
     g = w[1].astype(float).copy()
-    g[~w[2]] = np.nan if (len(g) % 2) else 777.0
+    # what sits under a False validity is a placeholder of the caller's choosing (NaN, a large number, a negative sentinel)
+    g[~w[2]] = (np.nan, 777.0, -999.0)[len(g) % 3]
     return (g, w[2].copy())
 
 
